@@ -131,6 +131,7 @@ func IndexFromFile(ctx context.Context,
 	// don't advance to the next worker in that case.
 	for _, w := range worker {
 		for chunk := range w.results {
+			verifYield("pchunk.collect")
 			// Assemble the list of chunks in the index
 			index.Chunks = append(index.Chunks, chunk)
 			pb.Set(int(chunk.Start + chunk.Size))
@@ -179,6 +180,7 @@ func (c *pChunker) start(ctx context.Context) {
 	defer close(c.results)
 	defer c.stop()
 	for {
+		verifYield("pchunk.loop")
 		select {
 		case <-ctx.Done():
 			c.err = Interrupted{}
@@ -206,11 +208,13 @@ func (c *pChunker) start(ctx context.Context) {
 
 		// Store it in our bucket
 		chunk := IndexChunk{Start: start, Size: uint64(len(b)), ID: id}
+		verifYield("pchunk.send")
 		c.results <- chunk
 
 		// Check if the next worker already has this chunk, at which point we stop
 		// here and let the next continue
 		if c.next != nil {
+			verifYield("pchunk.sync")
 			inSync, zeroes := c.next.syncWith(chunk)
 			if inSync {
 				return
@@ -232,6 +236,7 @@ func (c *pChunker) start(ctx context.Context) {
 
 		// If the next worker has stopped and has no more chunks in its bucket,
 		// we want to skip that and try to sync with the one after
+		verifYield("pchunk.skip")
 		if c.next != nil && !c.next.active() && len(c.next.results) == 0 {
 			c.next = c.next.next
 		}
